@@ -436,6 +436,18 @@ class DiscreteStridedIntervalSet(StridedInterval):
     def __radd__(self, o):
         return self.__add__(o)
 
+    def _reflected(self, o, name):
+        """
+        `o OP self` for an operand that is not a set itself: the operation is not commutative, so every member goes on
+        the right-hand side.
+        """
+        if isinstance(o, BVV):
+            o = o.value
+        if isinstance(o, numbers.Number):
+            o = StridedInterval(bits=self.bits, stride=0, lower_bound=o, upper_bound=o)
+        ret = DiscreteStridedIntervalSet(bits=self.bits, si_set={getattr(o, name)(si) for si in self._si_set})
+        return ret.normalize()
+
     @convert_operand_to_si
     @apply_on_each_si
     def __sub__(self, o):
@@ -447,7 +459,7 @@ class DiscreteStridedIntervalSet(StridedInterval):
         """
 
     def __rsub__(self, o):
-        return self.__sub__(o)
+        return self._reflected(o, "__sub__")
 
     @convert_operand_to_si
     @apply_on_each_si
@@ -463,7 +475,7 @@ class DiscreteStridedIntervalSet(StridedInterval):
         return self.__floordiv__(o)  # floats not welcome
 
     def __rfloordiv__(self, o):
-        return self.__floordiv__(o)
+        return self._reflected(o, "__floordiv__")
 
     def __rtruediv__(self, o):
         return self.__rfloordiv__(o)
@@ -479,7 +491,7 @@ class DiscreteStridedIntervalSet(StridedInterval):
         """
 
     def __rmod__(self, o):
-        return self.__mod__(o)
+        return self._reflected(o, "__mod__")
 
     # Evaluation
 
